@@ -74,6 +74,12 @@ def run(ctx):
         path, cnt = ctx.write_cases(name + ".ndjson", cases)
         ctx.samples += core.sample_of(cases, 1)
         ctx.replay(PKG, OVERLAY, "^TestVerifC10$", path, label=name, env=dict(VERIF_SLOTS=n), shards=16, binp=binp)
+        if name in ("g3b", "g3c", "g7"):
+            # the same behaviours with delays that are not whole multiples of the interval
+            # (d intervals + half an interval, and + one interval minus a nanosecond): floor(d/I) is unchanged
+            for frac, tag in ((500000000, "half"), (999999999, "almost")):
+                ctx.replay(PKG, OVERLAY, "^TestVerifC10$", path, label=name + "-frac-" + tag,
+                           env=dict(VERIF_SLOTS=n, VERIF_FRACNS=frac), shards=16, binp=binp)
         if name in ("g3a", "g4"):
             # the same behaviours with callbacks that are still running while later ticks fire
             ctx.replay(PKG, OVERLAY, "^TestVerifC10$", path, label=name + "-slowcb", env=dict(VERIF_SLOTS=n, VERIF_GATED=1),
